@@ -19,7 +19,7 @@ class EvMonWorld(World):
     fault_kinds = ("clear_and_trigger_same_cycle", "one_cycle_pulse", "edges_in_consecutive_cycles",
                    "clear_of_non_pending", "repeated_add", "foreign_object", "add_after_freeze",
                    "second_instance_in_process", "source_also_in_another_event_map",
-                   "domain_reset")
+                   "domain_reset", "refused_monitor_construction")
     assumptions = (
         "a reset of the clock domain returns the component to its initial state (the state the "
         "property calls initial is the state after reset, as for every Amaranth register)",
@@ -54,6 +54,8 @@ class EvMonWorld(World):
                 ops.append({"k": "index", "s": rng.below(n)})
             if rng.chance(0.08):
                 ops.append({"k": "addbad"})
+            if rng.chance(0.05):
+                ops.append({"k": "badmon"})
         if rng.chance(0.2) and n:
             # the same source objects are also members of another event map (other order)
             other = list(range(n))
@@ -155,6 +157,15 @@ class EvMonWorld(World):
             elif k == "freeze":
                 em.freeze()
                 frozen = True
+            elif k == "badmon":
+                # a csr.EventMonitor construction that is refused for its bus parameters must not
+                # touch the map (which was never handed to a monitor)
+                from amaranth_soc import csr as _csr
+                try:
+                    _csr.EventMonitor(em, data_width=0)
+                    raise Violation("C13", "invalid-monitor-accepted", step, "data_width=0")
+                except (ValueError, TypeError):
+                    stats.fault("refused_monitor_construction")
             elif k == "add_other" and srcs:
                 other_map.add(srcs[int(op.get("s", 0)) % len(srcs)])
                 stats.fault("source_also_in_another_event_map")
@@ -165,6 +176,16 @@ class EvMonWorld(World):
                              event.Monitor, em,
                              **hw.spelled(omit, {"trigger": "level"}, trigger=config["trigger"]))
         check_map(step + 1)     # constructing the monitor must not renumber anything
+        # ... and from now on the numbering is final: the map is frozen by use, before anything
+        # else looks at it
+        try:
+            em.add(event.Source(path=("late",)))
+            raise Violation("C13", "event-map-add-after-monitor-accepted", step + 1,
+                            f"a source was added to the event map of an existing "
+                            f"monitor (its masks were sized for {len(order)} sources)")
+        except ValueError:
+            stats.fault("add_after_freeze")
+        check_map(step + 2)
         if config.get("decoy"):
             em2 = event.EventMap()
             em2.add(event.Source(trigger="rise", path=("decoy",)))
